@@ -1,17 +1,21 @@
 """C01 - linear systems are solved to working precision through every entry point (DESIGN 4/C01)."""
 LEVEL = "model_checking"
-RULE = ("P1: shared with C11 (MC_Linalg): code-shaped LU + lu_solve + the column-by-column multi-RHS pipeline reproduce "
-        "A X = B and A A^-1 = I exactly, routing = chol iff SPD; P2: every nonsingular enumerated matrix (order 2 over -2..2 / "
-        "order 3 over -1..1, permutation matrices of order 4, SPD products, every symmetric order-4 matrix with unit diagonal over -1..1 and with diagonal 2 over 0..1; classes general, zero leading pivot, symmetric, "
-        "SPD, symmetric indefinite with positive diagonal) is emitted with its exact solution for two non-symmetric right-hand "
-        "sides and its exact inverse, and pushed through all six entry points (slice solve per column, multi-RHS slice solver, "
-        "slice inverse, Matrix solve for Vector and for Matrix, Matrix inverse): finite, within 2^-30 of the exact rationals, "
-        "A * inverse = I; the same exact answer is demanded whatever the routing; P3: random unimodular integer systems of "
-        "order 2..7 (and their SPD Gram matrices) with planted integer solutions and 1..4 right-hand sides: TLC checks "
-        "A X = B exactly on the rationalised result of every entry point; the real-valued classes of the quantifier (dense, "
-        "SPD, symmetric indefinite with positive diagonal, diagonally dominant, permuted/scaled triangular incl. scale 1e-17, "
-        "graded to cond 1e10, pivot-trap columns with a tiny diagonal and several larger candidates; order 1..32, 1..6 columns) through the observation 'finite and scaled residual <= 64 n' "
-        "(residual in double-double by the harness; measured maximum on the unchanged tree: 1.0 n).")
+RULE = ("P1: shared with C11 (MC_Linalg): code-shaped LU + lu_solve + the column-by-column multi-RHS pipeline reproduce"
+        " A X = B and A A^-1 = I exactly, routing = chol iff SPD; P2: every nonsingular enumerated matrix (order 2 over"
+        " -2..2 / order 3 over -1..1, permutation matrices of order 4, SPD products, every symmetric order-4 matrix "
+        "with unit diagonal over -1..1 and with diagonal 2 over 0..1; classes general, zero leading pivot, symmetric, "
+        "SPD, symmetric indefinite with positive diagonal) is emitted with its exact solution for two non-symmetric "
+        "right-hand sides and its exact inverse, and pushed through all six entry points (slice solve per column, "
+        "multi-RHS slice solver, slice inverse, Matrix solve for Vector and for Matrix, Matrix inverse): finite, within"
+        " 2^-30 of the exact rationals, A * inverse = I; every third case again with A and B scaled by powers of two (A"
+        " 2^-110; B 2^-60; A 2^60 and B 2^-60; A 2^90 and B 2^200), expected solution scaled accordingly (homogeneity, "
+        "checked by TLC for factors 2 and 3); the same exact answer is demanded whatever the routing; P3: random "
+        "unimodular integer systems of order 2..7 (and their SPD Gram matrices) with planted integer solutions and 1..4"
+        " right-hand sides: TLC checks A X = B exactly on the rationalised result of every entry point; the real-valued"
+        " classes of the quantifier (dense, SPD, symmetric indefinite with positive diagonal, diagonally dominant, "
+        "permuted/scaled triangular incl. scale 1e-17, graded to cond 1e10, pivot-trap columns with a tiny diagonal and"
+        " several larger candidates; order 1..32, 1..6 columns) through the observation 'finite and scaled residual <= "
+        "64 n' (residual in double-double by the harness; measured maximum on the unchanged tree: 1.0 n).")
 ASSUMPTIONS = ["exact oracle limited to order <= 4 / small integers (32-bit TLC integers); real classes only through the residual observation, whose a-priori bound is evaluated by the harness",
                "singular matrices are outside the property's domain and are not judged"]
 EXHAUSTIVE = True
